@@ -97,11 +97,28 @@ def strategy_(draw):
     return {"spec": sp, "ops": ops, "rng": draw(st.integers(0, 2**31 - 1))}
 
 
+@st.composite
+def parent_strategy(draw):
+    """A parent Ocp without dynamics of its own: global variables of the parent next to 1-2 stages."""
+    nv = draw(st.integers(1, 2))
+    pvars = [{"rows": draw(st.sampled_from([1, 1, 2, 3]))} for _ in range(nv)]
+    stages = [{"cls": draw(st.sampled_from(["MS", "SS", "DC"])), "N": draw(st.integers(1, 3)), "T": draw(st.sampled_from([1.0, 2.0])), "t0": draw(st.sampled_from([0.0, 1.0]))} for _ in range(draw(st.integers(1, 2)))]
+    ops = []
+    for _ in range(draw(st.integers(1, 4))):
+        tgt = draw(st.sampled_from(["pv%d" % i for i in range(nv)] + ["sx%d" % i for i in range(len(stages))] + ["su%d" % i for i in range(len(stages))]))
+        rows = pvars[int(tgt[2:])]["rows"] if tgt.startswith("pv") else 1
+        val = draw(gen.small()) if (rows == 1 or draw(st.booleans())) else [draw(gen.small()) for _ in range(rows)]
+        ops.append({"sym": tgt, "value": val, "phase": draw(st.sampled_from(["before", "after"]))})
+    return {"kind": "parent", "pvars": pvars, "stages": stages, "ops": ops, "rng": draw(st.integers(0, 2**31 - 1))}
+
+
 def strategy(tier):
-    return strategy_()
+    return st.one_of(strategy_(), strategy_(), strategy_(), strategy_(), strategy_(), strategy_(), strategy_(), parent_strategy())
 
 
 def nontrivial(case):
+    if case.get("kind") == "parent":
+        return True
     sp = case["spec"]
     scaled = any("scale" in d for d in sp["states"] + sp["controls"] + sp["vars"])
     return bool(any(o["guess"]["form"] in ("arrN", "arrN1", "expr") for o in case["ops"]) or any(o["phase"] == "after" for o in case["ops"])
@@ -127,6 +144,9 @@ def kind_of(sp, name):
 
 
 def classify(case):
+    if case.get("kind") == "parent":
+        return sorted(set(["parent Ocp with stages"] + ["guess:" + ("parent variable" if o["sym"].startswith("pv") else "stage " + ("state" if o["sym"][1] == "x" else "control")) for o in case["ops"]]
+                          + ["phase:" + o["phase"] for o in case["ops"]]))
     sp = case["spec"]
     labs = ["method:" + sp["method"]["cls"], "grid:" + sp["method"]["grid"]["cls"]]
     for o in case["ops"]:
@@ -139,6 +159,8 @@ def classify(case):
 
 
 def abbreviate(case):
+    if case.get("kind") == "parent":
+        return case
     sp = case["spec"]
     return {"method": sp["method"], "T": sp["T"], "t0": sp["t0"], "ops": case["ops"], "rng": case["rng"]}
 
@@ -189,7 +211,66 @@ def ref_value(g, el, col, t):
     raise ValueError(g)
 
 
+def check_parent(case, ctx):
+    """Guesses on a parent Ocp that has no dynamics of its own (DirectMethod.set_initial) and on its stages."""
+    from rockit import Ocp, MultipleShooting, SingleShooting, DirectCollocation
+    from vlib.build import IPOPT_QUIET
+    ocp = Ocp()
+    syms, rows = {}, {}
+    obj = 0
+    for i, d in enumerate(case["pvars"]):
+        syms["pv%d" % i] = ocp.variable(d["rows"])
+        rows["pv%d" % i] = d["rows"]
+        obj = obj + ca.sumsqr(syms["pv%d" % i])
+    ocp.add_objective(obj)
+    for i, sd in enumerate(case["stages"]):
+        stg = ocp.stage(t0=sd["t0"], T=sd["T"])
+        x, u = stg.state(), stg.control()
+        stg.set_der(x, u - x)
+        stg.add_objective(stg.integral(u ** 2 + x ** 2))
+        stg.subject_to(stg.at_t0(x) == syms["pv0"][0])
+        stg.method({"MS": MultipleShooting, "SS": SingleShooting, "DC": DirectCollocation}[sd["cls"]](N=sd["N"]))
+        syms["sx%d" % i], syms["su%d" % i] = x, u
+        rows["sx%d" % i] = rows["su%d" % i] = 1
+        syms["stage%d" % i] = stg
+    ocp.solver("ipopt", dict(IPOPT_QUIET))
+    owner = lambda name: ocp if name.startswith("pv") else syms["stage" + name[2:]]
+    for o in [o for o in case["ops"] if o["phase"] == "before"]:
+        owner(o["sym"]).set_initial(syms[o["sym"]], o["value"] if not isinstance(o["value"], list) else np.array(o["value"]))
+    ocp.value(syms["pv0"])      # transcribes
+    for o in [o for o in case["ops"] if o["phase"] == "after"]:
+        owner(o["sym"]).set_initial(syms[o["sym"]], o["value"] if not isinstance(o["value"], list) else np.array(o["value"]))
+    final = {}
+    for ph in ("before", "after"):
+        for o in case["ops"]:
+            if o["phase"] == ph:
+                final[o["sym"]] = o["value"]
+    fails = []
+    feats = {"kind": "parent", "stage_methods": [sd["cls"] for sd in case["stages"]]}
+    for name in rows:
+        want = final.get(name, 0.0)
+        if name.startswith("pv"):
+            got = DMa(ocp.initial_value(ocp.value(syms[name]))).reshape(-1)
+            want = np.array(want if isinstance(want, list) else [want] * rows[name], dtype=float)
+            if not close(got, want, 1e-12, 1e-12):
+                fails.append(Fail("parent-variable-start", dict(feats, phase=[o["phase"] for o in case["ops"] if o["sym"] == name][-1:] or ["never"]), {"symbol": name, "start": got, "guess": want}))
+        else:
+            stg = syms["stage" + name[2:]]
+            sd = case["stages"][int(name[2:])]
+            got = DMa(ocp.initial_value(stg.sample(syms[name], grid="control")[1])).reshape(-1)
+            if name.startswith("sx") and sd["cls"] == "SS":
+                got = got[:1]
+            elif name.startswith("su"):
+                got = got[:sd["N"]]
+            if not close(got, np.full(got.shape, float(want)), 1e-12, 1e-12):
+                fails.append(Fail("stage-start-under-parent", dict(feats, target="state" if name.startswith("sx") else "control"), {"symbol": name, "start": got, "guess": want}))
+    ctx.count("parent_cases")
+    return fails
+
+
 def check(case, ctx):
+    if case.get("kind") == "parent":
+        return check_parent(case, ctx)
     sp = copy.deepcopy(case["spec"])
     m = sp["method"]
     N, M = m["N"], m["M"]
